@@ -12,6 +12,7 @@ import (
 	"go/types"
 	"math/big"
 	"strings"
+	"time"
 )
 
 // c13LockRegion: the real baseScreen.LockRegion over the real terminfo screen, evaluated on a concrete 4x3 buffer
@@ -299,4 +300,84 @@ func c13Corner(run *PropRun) {
 	for k := range c.Assumed {
 		run.Assumed[k] = true
 	}
+}
+
+// c13PaintedClean: the painting path of drawCell is outside the contract's reach (its effect on the buffer is assumed,
+// see the drawCell contract), so "a cell that has been painted is clean, and a second pass with no change writes
+// nothing" is decided by a bounded native stand-in: the real drawCell, driven the way draw drives it, over row 0 of a
+// 4x2 screen (the corner rule only concerns the bottom row) on several descriptions, with narrow, combining and wide
+// runes - a wide rune in the middle, ending exactly at the margin, and in the last column where it does not fit.
+func c13PaintedClean(run *PropRun) {
+	src := replayTest("tcell", []string{"golang.org/x/text/encoding/unicode", modPath + "/terminfo", "_ " + modPath + "/terminfo/extended"}, `
+	type put struct { x int; r rune; comb []rune }
+	scenarios := [][]put{
+		{{0, 'a', nil}, {1, 0x4e16, nil}, {3, 'b', nil}},
+		{{0, 'a', nil}, {3, 0x4e16, nil}},
+		{{0, 'e', []rune{0x0301}}, {2, 0x4e16, nil}},
+		{{0, 0x4e16, nil}, {2, 0x4e16, []rune{0x0301}}},
+		{{1, 'x', nil}, {2, 0x7f, nil}, {3, 0x4e16, []rune{0x0301}}},
+	}
+	bad := ""
+	n := 0
+	for _, name := range []string{"xterm-256color", "xterm", "linux", "vt100", "vt220", "tmux", "screen", "rxvt", "beterm", "sun", "wy50", "cygwin"} {
+		ti, err := terminfo.LookupTerminfo(name)
+		if err != nil { bad = "lookup " + name + ": " + err.Error(); break }
+		for si, sc := range scenarios {
+			for _, styled := range []bool{false, true} {
+				scr := &tScreen{ti: ti, buffering: true, w: 4, h: 2, cx: -1, cy: -1}
+				scr.encoder = unicode.UTF8.NewEncoder()
+				scr.charset = "UTF-8"
+				scr.cells.Resize(4, 2)
+				st := StyleDefault
+				if styled { st = st.Bold(true).Reverse(true) }
+				for _, p := range sc { scr.cells.SetContent(p.x, 0, p.r, p.comb, st) }
+				pass := func() []int {
+					var visited []int
+					for x := 0; x < scr.w; x++ {
+						visited = append(visited, x)
+						width := scr.drawCell(x, 0)
+						if width > 1 && x+1 < scr.w { scr.cells.SetDirty(x+1, 0, true) }
+						if width < 1 { width = 1 }
+						x += width - 1
+					}
+					return visited
+				}
+				for _, x := range pass() {
+					n++
+					if scr.cells.Dirty(x, 0) {
+						bad = fmt.Sprintf("%s, scenario %d, styled=%v: cell (%d,0) is still dirty after drawCell painted it - it is written again by every Show", name, si, styled, x)
+					}
+				}
+				scr.buf.Reset()
+				pass()
+				if out := scr.buf.String(); out != "" && bad == "" {
+					bad = fmt.Sprintf("%s, scenario %d, styled=%v: a second pass with no change wrote %q", name, si, styled, out)
+				}
+				if bad != "" { break }
+			}
+			if bad != "" { break }
+		}
+		if bad != "" { break }
+	}
+	if bad != "" { fmt.Println("PAINTCLEAN FAIL " + bad); fail("%s", bad); return }
+	fmt.Printf("PAINTCLEAN OK %d\n", n)`)
+	out, err := runOverlayTest(run.Eng.Repo, run.Eng.Repo, src, 300*time.Second, nil)
+	ok, detail := false, ""
+	for _, ln := range strings.Split(out, "\n") {
+		if strings.HasPrefix(ln, "PAINTCLEAN OK ") {
+			ok = true
+			detail = strings.TrimPrefix(ln, "PAINTCLEAN OK ") + " painted cells"
+		}
+		if strings.HasPrefix(ln, "PAINTCLEAN FAIL ") && detail == "" {
+			detail = strings.TrimPrefix(ln, "PAINTCLEAN FAIL ")
+		}
+	}
+	if !ok && detail == "" {
+		run.Errors = append(run.Errors, fmt.Sprintf("painted-cell check did not run: %v %s", err, tail(out, 600)))
+		return
+	}
+	g := run.AddObligation("drawCell/painted-cell-is-clean-and-second-pass-silent", "bounded", BoolT(ok),
+		"every cell drawCell paints is clean afterwards and a second pass with no change emits nothing (native; 12 descriptions x 5 row scenarios with narrow, combining and wide runes incl. a wide rune in the last column x plain/styled): "+detail)
+	g.ReplayDir = run.Eng.Repo
+	g.ReplayGo = src
 }
